@@ -3,6 +3,41 @@ V = os.path.abspath(os.path.join(os.path.dirname(__file__), ".."))
 sys.path.insert(0, V)
 
 
+def replay(path):
+    """re-run a recorded counterexample through the real code (same harness binary, native and symbolic mode)
+    and re-evaluate the violated obligation numerically"""
+    import importlib, json
+    v = json.load(open(path))
+    pid = v["property"]
+    spec = importlib.import_module("spec." + pid)
+    if hasattr(spec, "replay"):
+        return spec.replay(v)
+    from engine.driver import core
+    from engine.driver.encode import Encoder
+    core.build_instrumented()
+    inst = next((i for i in spec.instances("thorough", 1) + spec.instances("quick", 1) if i["name"] == v["instance"]), None)
+    if inst is None:
+        inst = dict(name=v["instance"], args=v.get("args", []))
+    inst["binary"] = core.build_harness(inst.get("harness", spec.HARNESS))
+    seeds = {k: float(x) for k, x in v["inputs"].items()}
+    tr = core.run_harness(inst["binary"], inst.get("args", []), seeds, concrete=False)
+    co = core.run_harness(inst["binary"], inst.get("args", []), seeds, concrete=True)
+    bad = core.compare_shadow_native(tr, co)
+    print("replay of %s: instance=%s obligation=%s" % (path, v["instance"], v["obligation"]))
+    print("native run == symbolic shadow run:", "yes" if not bad else bad[:3])
+    free = v.get("free")
+    enc = Encoder(tr, free=() if free == "ALL" else free, free_all=(free == "ALL"), max_terms=200000, abstract_big=inst.get("abstract_big", False))
+    obs = spec.obligations(enc, inst, tr)
+    ob = next((o for o in obs if o.name == v["obligation"]), None)
+    if ob is None:
+        print("obligation not present on the replayed path"); return 2
+    hy, go, detail = core.goal_numeric(enc, ob)
+    for w, val, mag, ok in detail:
+        print("  %-50s value=%.6g scale=%.3g %s" % (w[:50], val, mag, "ok" if ok else "VIOLATED"))
+    print("hypotheses hold:", hy, " goal holds:", go)
+    return 1 if (hy and not go) else 0
+
+
 def main():
     a = sys.argv[1:]
     if not a:
@@ -16,6 +51,8 @@ def main():
         dt = build_instrumented()
         print("instrumented build ready (%.1fs)" % dt)
         return 0
+    if a[0] == "replay":
+        return replay(a[1])
     pid = a[0]
     import importlib
     spec = importlib.import_module("spec." + pid)
